@@ -17,6 +17,11 @@
 (*            with the intensity reason;                                    *)
 (*            one-for-one: start it; all-for-one: stop the others, start    *)
 (*            every enabled spec; rest-for-one: the same from its index on. *)
+(* simple-one-for-one (typ = "sofo"): n instances of ONE spec started with   *)
+(* StartChild; each is handled like a one-for-one child; DisableChild stops  *)
+(* every instance (they stay down and do not count as failures), EnableChild *)
+(* only re-opens the spec.  Instances have no identity across a restart, so  *)
+(* the comparison is by counts; a fault names the k-th running instance.     *)
 (* Each trace line carries what the real supervisor did (which specs run,   *)
 (* which kept their process, start and stop order, fate and reason of the   *)
 (* supervisor); the clauses compare that with the reference.                *)
@@ -67,8 +72,8 @@ HandleExit(s, i, r, now) ==
            s2 == [s1 EXCEPT !.fails = fs]
        IN IF Cardinality(Window(fs, now)) > intensity
             THEN StopAll(s2, "exceeded")
-            ELSE LET from == IF typ = "ofo" THEN i ELSE IF typ = "afo" THEN 1 ELSE i
-                     upto == IF typ = "ofo" THEN i ELSE Len(s.run)
+            ELSE LET from == IF typ \in {"ofo", "sofo"} THEN i ELSE IF typ = "afo" THEN 1 ELSE i
+                     upto == IF typ \in {"ofo", "sofo"} THEN i ELSE Len(s.run)
                      Aff == {j \in from..upto : ~s.disabled[j]}
                  IN [s2 EXCEPT !.run = [j \in DOMAIN s.run |-> IF j \in Aff THEN TRUE ELSE s2.run[j]],
                                !.inc = [j \in DOMAIN s.inc |-> IF j \in Aff THEN s.inc[j] + 1 ELSE s.inc[j]]]
@@ -90,10 +95,21 @@ SetRef(s) == run' = s.run /\ inc' = s.inc /\ disabled' = s.disabled /\ alive' = 
 IsIncreasing(sq) == \A a, b \in 1..Len(sq) : a < b => sq[a] < sq[b]
 IsDecreasing(sq) == \A a, b \in 1..Len(sq) : a < b => sq[a] > sq[b]
 
+\* simple-one-for-one: the k-th running instance
+NthRunning(r, k) == LET R == {j \in 1..Len(r) : r[j]} IN CHOOSE j \in R : Cardinality({x \in R : x <= j}) = k
+RECURSIVE StopEach(_, _)
+StopEach(s, k) == IF k > Len(s.run) THEN s ELSE StopEach([s EXCEPT !.run[k] = FALSE], k + 1)
+
 \* e: the reported line, s0: reference before the step, s: reference after it
+CountTrue(f) == Cardinality({j \in 1..Len(f) : f[j]})
 Compare(e, s0, s) ==
   IF "Fate" \in Checks /\ e.alive # s.alive THEN "Fate"
   ELSE IF "Reason" \in Checks /\ ~s.alive /\ e.reason # s.reason THEN "Reason"
+  ELSE IF typ = "sofo" THEN
+       IF "Running" \in Checks /\ (CountTrue(e.run) # CountTrue(s.run) \/ e.extra # 0) THEN "Running"
+       ELSE IF "Kept" \in Checks /\ s.alive /\ CountTrue(e.kept) # Cardinality({j \in 1..Len(s.run) : s.run[j] /\ s0.run[j] /\ s.inc[j] = s0.inc[j]}) THEN "Kept"
+       ELSE IF "NoOrphan" \in Checks /\ ~s.alive /\ e.orphans # 0 THEN "NoOrphan"
+       ELSE ""
   ELSE IF "Running" \in Checks /\ \E j \in 1..Len(s.run) : e.run[j] # s.run[j] THEN "Running"
   ELSE IF "Kept" \in Checks /\ s.alive /\ \E j \in 1..Len(s.run) : (s.run[j] /\ s0.run[j]) /\ (e.kept[j] # (s.inc[j] = s0.inc[j])) THEN "Kept"
   ELSE IF "StartOrder" \in Checks /\ Len(e.faults) <= 1 /\ ~IsIncreasing(e.startorder) THEN "StartOrder"
@@ -113,9 +129,27 @@ Line ==
      /\ UNCHANGED <<cfgvars, refvars>>
      /\ mismatch' = Compare(e, Cur, Cur)
   ELSE IF e.ev = "batch" THEN
-     LET s == HandleBatch(Cur, e.faults, 1, inc, e.now) IN
+     LET fs == IF typ = "sofo" THEN [k \in 1..Len(e.faults) |-> <<NthRunning(run, e.faults[k][1]), e.faults[k][2]>>] ELSE e.faults
+         s == HandleBatch(Cur, fs, 1, inc, e.now) IN
      /\ SetRef(s) /\ UNCHANGED cfgvars
      /\ mismatch' = Compare(e, Cur, s)
+  ELSE IF e.ev = "startchild" THEN
+     \* one more instance of the spec (refused while the spec is disabled)
+     LET Freeslots == {j \in 1..n : ~run[j]}
+         s == IF alive /\ Freeslots # {} /\ ~disabled[1]
+                THEN LET j == CHOOSE x \in Freeslots : \A y \in Freeslots : x <= y IN [Cur EXCEPT !.run[j] = TRUE, !.inc[j] = @ + 1]
+                ELSE Cur
+     IN /\ SetRef(s) /\ UNCHANGED cfgvars
+        /\ mismatch' = Compare(e, Cur, s)
+  ELSE IF e.ev = "disable" /\ typ = "sofo" THEN
+     \* every instance is stopped and stays down; nothing of it counts as a failure
+     LET s == IF alive THEN StopEach([Cur EXCEPT !.disabled = [j \in 1..n |-> TRUE]], 1) ELSE Cur
+     IN /\ SetRef(s) /\ UNCHANGED cfgvars
+        /\ mismatch' = Compare(e, Cur, s)
+  ELSE IF e.ev = "enable" /\ typ = "sofo" THEN
+     LET s == IF alive THEN [Cur EXCEPT !.disabled = [j \in 1..n |-> FALSE]] ELSE Cur
+     IN /\ SetRef(s) /\ UNCHANGED cfgvars
+        /\ mismatch' = Compare(e, Cur, s)
   ELSE IF e.ev = "disable" THEN
      \* DisableChild: the child is stopped with reason shutdown and stays down
      LET i == e.i
